@@ -338,6 +338,7 @@ pub fn c02(big: bool) -> BoxedStrategy<Case> {
         1 => Just(Cause::StopPanic),
         3 => (0u32..14).prop_map(Cause::Cancel),
         2 => (1u32..6).prop_map(Cause::TimeoutFail),
+        2 => (1u32..6).prop_map(Cause::TimeoutCarryOn),
         2 => prop_oneof![Just(FailHow::Err), Just(FailHow::Panic)].prop_map(Cause::RestartFail),
     ];
     let w = OpWeights { stop: 3, halt: 2, try_stop: 2, await_: 3, drop: 3, join: 2, consume: 1, call_drop: 7, restart: 3, max_sleep: 8, ..MSG_WEIGHTS };
@@ -353,7 +354,11 @@ pub fn c02(big: bool) -> BoxedStrategy<Case> {
         .prop_map(|(mut spawn, cause, grants, clients, schedule)| {
             let mut faults = vec![];
             match cause {
-                Cause::None | Cause::FinishPanic | Cause::TimeoutCarryOn(_) => {}
+                Cause::None | Cause::FinishPanic => {}
+                Cause::TimeoutCarryOn(t) => {
+                    let (mailbox, owning) = (spawn.mailbox(), spawn.owning());
+                    spawn = SpawnSpec::Build { mailbox, strategy: RStrat::Default, timeout: Some(t), fail_on_timeout: false, owning };
+                }
                 Cause::StartFail(how) => faults.push(Fault::StartFail { actor: 0, inc: 0, how }),
                 Cause::RestartFail(how) => faults.push(Fault::StartFail { actor: 0, inc: 1, how }),
                 Cause::HandlerPanic(kth) => faults.push(Fault::HandlerPanic { actor: 0, kth }),
@@ -790,7 +795,12 @@ pub fn c10(big: bool) -> BoxedStrategy<Case> {
     let timer_in_handler = (any_timer(50), h()).prop_map(|(t, h)| ClientOp::Call { h, work: vec![Step::AddTimer(t)] });
     // a long congestion: one very slow message (virtual time is free)
     let congestion = (h(), 1000u32..2500).prop_map(|(h, d)| ClientOp::Send { h, work: vec![Step::Sleep(d)] });
-    let op = mixed_ops(base, vec![(8, timer_in_handler.boxed()), (2, congestion.boxed())]);
+    // a handler that arms a few dozen one-shot timers at once
+    let many = (h(), 33u32..=40, 15u32..=30).prop_map(|(h, n, ticks)| ClientOp::Call {
+        h,
+        work: (0..n).map(|i| Step::AddTimer(TimerSpec { kind: if i % 2 == 0 { TimerKind::DelayedExec } else { TimerKind::DelayedSend }, ticks: ticks + i % 7, work: vec![] })).collect(),
+    });
+    let op = mixed_ops(base, vec![(8, timer_in_handler.boxed()), (2, congestion.boxed()), (1, many.boxed())]);
     let cause = prop_oneof![
         8 => Just(Cause::None),
         1 => prop_oneof![Just(FailHow::Err), Just(FailHow::Panic)].prop_map(Cause::StartFail),
@@ -894,7 +904,7 @@ pub fn c10(big: bool) -> BoxedStrategy<Case> {
 
 pub fn c11(big: bool) -> BoxedStrategy<Case> {
     let max_ops = if big { 12 } else { 8 };
-    let tval = prop_oneof![12 => 1u32..=100, 1 => 1000u32..=2500];
+    let tval = prop_oneof![12 => 1u32..=100, 1 => 1000u32..=2500, 1 => Just(0u32)];
     let strat = prop_oneof![4 => Just(RStrat::Default), 1 => Just(RStrat::Recreate), 1 => Just(RStrat::NonRestartable)];
     (proptest::option::weighted(0.85, tval), any::<bool>(), (mailbox(), strat), any::<bool>(), 1usize..=3)
         .prop_flat_map(move |(timeout, fail, mb, owning, n)| {
@@ -1334,7 +1344,7 @@ pub fn c06(big: bool) -> BoxedStrategy<Case> {
         base,
         vec![
             (14, peer_call.boxed()),
-            (8, reg_op(1, [3, 0, 0, 0, 0, 3, 2])),
+            (8, reg_op(1, [3, 2, 0, 0, 0, 3, 2])),
             // only meaningful when T is stream-attached
             (5, (any::<u8>(), 0u8..4).prop_map(|(stream, n)| ClientOp::Feed { stream, n }).boxed()),
             (1, any::<u8>().prop_map(|stream| ClientOp::EndStream { stream }).boxed()),
@@ -1344,6 +1354,8 @@ pub fn c06(big: bool) -> BoxedStrategy<Case> {
         5 => started_with_timers(2),
         // a delayed task that is still running when T dies
         1 => (1u32..=4, 5u32..=30).prop_map(|(ticks, d)| vec![Step::AddTimer(TimerSpec { kind: TimerKind::DelayedExec, ticks, work: vec![Step::Sleep(d)] })]),
+        // a few dozen one-shot timers pending when T dies
+        1 => (33u32..=40, 8u32..=20).prop_map(|(n, ticks)| (0..n).map(|i| Step::AddTimer(TimerSpec { kind: TimerKind::DelayedExec, ticks: ticks + i % 5, work: vec![] })).collect()),
     ];
     (t_spawn, started, kids, any::<bool>(), 1usize..=3)
         .prop_flat_map(move |(spawn, started, kids, bystander, n)| {
